@@ -135,6 +135,21 @@ CHECKS = {
              "must be the same object; a sample of container files is re-read in a fresh interpreter from the bytes alone. One open "
              "finding (piecewise non-record top level) is attributed only by counterfactual re-test.",
         ref="DESIGN.md §4 C12"),
+    "C19": dict(
+        cat="exploration", tech="runtime monitoring: generated on-disk schema repositories; model that inlines every type at first use as oracle; fault injection by removing each file",
+        text="Random acyclic repositories of 2-9 per-type .avsc files (several namespaces, qualified and relative references from "
+             "fields, array items, map values and union branches, diamonds, repeated use) are written to a scratch directory and "
+             "loaded with load_schema and load_schema_ordered (two dependency orders); the canonical form must equal the independent "
+             "canonical form of the model with every type inlined at first use and the encodings of generated data must coincide; "
+             "each file is removed in turn and the error must name the missing type.",
+        ref="DESIGN.md §4 C19"),
+    "C20": dict(
+        cat="exploration", tech="runtime monitoring: count and independent conformance oracle over generated data under seeded states of the global random source",
+        text="generate_many / generate_one run on generated schemas (logical types, references, recursion, error records; raw and "
+             "parsed) for n in {0,1,2,7,50} under several random.seed states; the count must be exact and every value must satisfy "
+             "the independent conformance predicate, validate(), the binary and container writers, and be readable. Two open "
+             "findings (unbounded recursion; raw values routed into a narrower logical branch) are attributed by counterfactual re-test.",
+        ref="DESIGN.md §4 C20"),
 }
 
 NOT_YET = "check not built yet in this session (see DESIGN.md §8 build order)"
